@@ -15,13 +15,17 @@ from .. import impl_c09 as I
 from ..common import canon
 
 LEAN_MODULES = ['Props.C09']
-TRUSTED = ['harness/props/c09.py + harness/impl_c09.py (heap<->object builders, id-graph canonicaliser, monitors)',
+TRUSTED = ['harness/props/c09.py + harness/impl_c09.py (heap<->object builders, id-graph canonicaliser, monitors, '
+           'per-case SIGALRM time limit)',
            'CPython object identity (id, is), copy.deepcopy, ruamel.yaml round-trip loader']
 ASSUMPTIONS = [
     'purity is claimed for values without side-effecting !py expressions (DESIGN 6); an assignment expression is not '
     'a side effect on the context (stream implonly-py: implementation-only monitors, no model side)',
     'heap model: !py only as a bare name; general !py results are covered by the tree-level model',
-    'identity of str objects is compared for len >= 2 only; numbers/None/bytes by value + `is` monitor',
+    'identity of str and bytes objects is compared for len >= 2 only (shorter ones may be CPython singletons), of '
+    'every bytearray always; numbers/None by value + `is` monitor',
+    'the tree-level model has one kind of binary leaf (bytearray reads as bytes); mutability / hashability of '
+    'bytearray is in the heap-level model only (Cell.mbytes)',
     'known open finding F9: classes whose constructor does not accept one iterable are rebuilt wrongly',
 ]
 
@@ -54,10 +58,24 @@ def check_cases(env, res, cases):
     impl = []
     for case, cells, ctxpairs, root, objs in prepared:
         ctxdict = {k: objs[r] for k, r in ctxpairs}
-        obs, fails = I.run_impl(objs[root], ctxdict, I.id_map(objs))
+        idm = I.id_map(objs)
+        obs, fails = I.run_impl(objs[root], ctxdict, idm)
         impl.append((obs, fails))
         for mon, detail in fails:
             res.violation(case, detail, signature=signature_for(objs[root], mon), impl=obs)
+        # the other entry points of the same formatter: monitors + must agree with Context's
+        special = I.has_special(objs[root]) or any(I.has_special(v) for v in ctxdict.values())
+        for entry in ('formatter',) if special else ('formatter', 'plain'):
+            obs2, fails2 = I.run_impl(objs[root], ctxdict, idm, entry=entry)
+            res.count('entry:' + entry)
+            for mon, detail in fails2:
+                sig = signature_for(objs[root], mon)
+                res.violation(case, f'[RecursiveFormatter called directly: {entry}] {detail}',
+                              signature=dict(sig, entry=entry) if 'monitor' in sig else sig, impl=obs2)
+            a = {'err': obs['err']} if 'err' in obs else obs
+            b = {'err': obs2['err']} if 'err' in obs2 else obs2
+            if a != b:
+                res.mismatch(case, a, b, f'entry points disagree: Context.get_formatted_value vs RecursiveFormatter ({entry})')
     # heap model
     heap_out = drv.ask_many([('heap.fmtHeap', {'cells': cells, 'ctx': ctxpairs, 'root': root})
                              for _, cells, ctxpairs, root, _ in prepared])
@@ -74,6 +92,10 @@ def check_cases(env, res, cases):
         if case.get('twins') or case['stream'].startswith('directed:twins'):
             res.count('feature:equal-but-distinct-hashable-siblings')
         res.count('outcome:' + ('ok' if 'ok' in iobs else iobs['err']))
+        if any('mbytes' in c for c in cells):
+            res.count('feature:bytearray-leaf')
+        if any('leaf' in c and isinstance(c['leaf'], dict) and 'b' in c['leaf'] for c in cells):
+            res.count('feature:bytes-leaf')
         # ---- heap level
         if isinstance(hout, common.Reject):
             res.count('heap-rejected:' + str(hout)[:40])
@@ -157,7 +179,10 @@ def check_py(env, res, cases):
 
 
 def run(env, res):
-    res.rule = ('directed heaps (each container class x leaf kind x expression kind, shared sub-objects, the same '
+    res.rule = ('every heap case through three entry points (Context.get_formatted_value vs models; '
+                'RecursiveFormatter(special_types=...).vformat and plain RecursiveFormatter().vformat: monitors + '
+                'agreement); leaves incl. bytes and bytearray (own, shared, context-owned, target of {k}/{k:ff}/{k:rf}); '
+                'directed heaps (each container class x leaf kind x expression kind, shared sub-objects, the same '
                 'str object twice, memoised None, key/member collisions, unhashable results, special tags), yaml '
                 'documents with anchors and tags loaded by pypyr.yaml (CommentedMap/CommentedSeq), random DAG '
                 'heaps with sharing and with equal-but-distinct hashable siblings (tuples / frozensets over 1, 1.0, True, '
